@@ -35,8 +35,8 @@ ASSUMPTIONS = [
 
 def bounds(tier):
     if tier == "quick":
-        return {"menu": 3, "max_nb_samples": 3, "builtin_nb_samples": [1, 2], "builtin_sources": 3, "alphas": [0.05, 0.5]}
-    return {"menu": 4, "max_nb_samples": 3, "builtin_nb_samples": [1, 2, 3], "builtin_sources": 5, "alphas": [0.05, 0.5, 0.9]}
+        return {"menu": 3, "max_nb_samples": 3, "builtin_nb_samples": [1, 2], "builtin_sources": 4, "alphas": [0.05, 0.5]}
+    return {"menu": 4, "max_nb_samples": 3, "builtin_nb_samples": [1, 2, 3], "builtin_sources": 6, "alphas": [0.05, 0.5, 0.9]}
 
 
 def sources():
@@ -134,6 +134,7 @@ def work(tier, seed):
     items.append({"kind": "history"})
     for k in range(4):
         items.append({"kind": "corners", "which": k})
+    items.append({"kind": "cross_process"})
     return items
 
 
@@ -292,6 +293,8 @@ def run(item, ctx, tier, seed):
                     "sequences": sum(len(menu) ** n for n in range(1, b["max_nb_samples"] + 1))})
         return None
 
+    if item["kind"] == "cross_process":
+        return _run_cross_process(ctx, seed)
     if item["kind"] == "corners":
         return _run_corners(item, ctx)
     if item["kind"] == "builtin":
@@ -299,6 +302,70 @@ def run(item, ctx, tier, seed):
     if item["kind"] == "seeds":
         return _run_seeds(item, ctx, seed)
     return _run_history(item, ctx)
+
+
+CROSS_SCRIPT = r"""
+from score_analysis import BootstrapConfig, GroupScores, Scores
+res = {}
+def rec(key, f):
+    try:
+        res[key] = np.asarray(f(), dtype=float).round(12).tolist()
+    except Exception as e:
+        res[key] = "ERR:" + type(e).__name__
+pos = [0.5 * i + 0.25 for i in range(14)]; neg = [0.5 * i for i in range(12)]
+names = ["north", "south", "east", "west", "n_e"]
+pg = [names[(i * 3) % 4] for i in range(14)]; ng = [names[(i * 5 + 1) % 4] for i in range(12)]
+objs = {
+  "scores": lambda: Scores(pos, neg, nb_easy_pos=3, nb_easy_neg=2),
+  "groups": lambda: GroupScores(pos=pos, neg=neg, pos_groups=pg, neg_groups=ng),
+  "groups-with-listed-empty-group": lambda: GroupScores(pos=pos, neg=neg, pos_groups=pg, neg_groups=ng, group_names=names),
+  "groups-int-names": lambda: GroupScores(pos=pos, neg=neg, pos_groups=[i % 3 for i in range(14)], neg_groups=[i % 3 for i in range(12)]),
+}
+for oname, mk in objs.items():
+    for method in ("replacement", "dynamic", "single_pass"):
+        for strat in (None, "by_label", "by_group"):
+            if strat == "by_group" and oname == "scores":
+                continue
+            cfg = BootstrapConfig(nb_samples=5, sampling_method=method, stratified_sampling=strat, bootstrap_method="bca")
+            key = "%s/%s/%s" % (oname, method, strat)
+            o = mk()
+            np.random.seed(SEED); rec(key + "/metric", lambda: o.bootstrap_metric("fnr", cfg, threshold=np.array([1.0, 3.0])))
+            np.random.seed(SEED); rec(key + "/ci", lambda: o.bootstrap_ci("auc", 0.2, cfg))
+            np.random.seed(SEED); rec(key + "/sample", lambda: np.concatenate([o.bootstrap_sample(cfg).pos, o.bootstrap_sample(cfg).neg]))
+            if oname != "scores":
+                np.random.seed(SEED); rec(key + "/group_metric", lambda: o.bootstrap_metric("group_fpr", cfg, threshold=2.0))
+print(json.dumps(res))
+"""
+
+
+def _run_cross_process(ctx, seed):
+    """'For a fixed global RNG seed all bootstrap results are reproducible' - also across interpreter runs that differ
+    in string hashing (PYTHONHASHSEED), which no in-process comparison can observe."""
+    from mc import crossproc
+
+    hs = (1, 2, 3)
+    runs = crossproc.run_script("SEED = %d\n" % (seed + 5) + CROSS_SCRIPT, hs)
+    ctx.state()
+    base = runs[hs[0]]
+    if "error" in base:
+        ctx.fail("unexpected-exception:cross-process-script", {"kind": "cross_process", "hash_seed": hs[0]}, observed=base["error"], expected="results")
+        return None
+    for h in hs[1:]:
+        r = runs[h]
+        if "error" in r:
+            ctx.fail("unexpected-exception:cross-process-script", {"kind": "cross_process", "hash_seed": h}, observed=r["error"], expected="results")
+            continue
+        for key in base:
+            ctx.tick()
+            ctx.nontrivial()
+            if r.get(key) != base[key]:
+                ctx.fail("reproducible-across-interpreter-runs", {"kind": "cross_process", "what": key, "np_random_seed": seed + 5,
+                                                                  "PYTHONHASHSEED": [hs[0], h]}, observed=r.get(key), expected=base[key])
+    ctx.outcome(("cross_process", len(base), sum(1 for v in base.values() if isinstance(v, str))))
+    ctx.extra["cov_cross_process_results_compared"] = len(base)
+    ctx.extra["cov_cross_process_configurations_raising"] = sum(1 for v in base.values() if isinstance(v, str))
+    ctx.sample({"kind": "cross_process", "hash_seeds": list(hs), "results": len(base)})
+    return None
 
 
 def _run_corners(item, ctx):
@@ -393,10 +460,21 @@ def _run_corners(item, ctx):
 def _run_builtin(item, ctx, b):
     from score_analysis import BootstrapConfig, GroupScores, Scores
 
+    class PercentScores(Scores):
+        """A user's subclass: overrides a metric and adds one. The built-in samplers return plain Scores objects, the
+        metric *name* must still be resolved on this class."""
+
+        def tpr(self, threshold):
+            return 100.0 * np.asarray(Scores.tpr(self, threshold))
+
+        def fnr_percent(self, threshold):
+            return 100.0 * np.asarray(Scores.fnr(self, threshold))
+
     srcs = [
         lambda: Scores([2.0, 0.5], [1.0], nb_easy_pos=1),
         lambda: Scores([1.0, 3.0], [2.0, 0.0], score_class="neg"),
         lambda: GroupScores(pos=[2.0, 0.5], neg=[1.0, 1.5], pos_groups=["a", "b"], neg_groups=["b", "a"]),
+        lambda: PercentScores([2.0, 0.5], [1.0], nb_easy_neg=1),
         lambda: Scores([1.0], [0.0, 2.0], nb_easy_neg=2, equal_class="neg"),
         lambda: Scores([1.0, 2.0, 2.0], [0.0, 2.0]),
     ]
@@ -407,6 +485,8 @@ def _run_builtin(item, ctx, b):
     metrics = [("fnr", {"threshold": thr}), ("tpr", {"threshold": 1.0})]
     if is_group:
         metrics.append(("group_fnr", {"threshold": thr}))
+    if type(src).__name__ == "PercentScores":
+        metrics = [("tpr", {"threshold": 1.0}), ("fnr_percent", {"threshold": thr})]
     modes = [("replacement", None), ("replacement", "by_label"), ("single_pass", "by_label"), ("dynamic", None)]
     if is_group:
         modes.append(("replacement", "by_group"))
@@ -439,7 +519,8 @@ def _run_builtin(item, ctx, b):
                         orc2 = rngtree.Oracle(orc.choices)
                         with rngtree.owned(orc2):
                             samples = [src.bootstrap_sample(cfg) for _ in range(n)]
-                        want = np.stack([np.asarray(getattr(type(s), mname)(s, **kw), dtype=float) for s in samples], axis=0)
+                        # the name is resolved on the class of the object that was asked (not on the class of the sample)
+                        want = np.stack([np.asarray(getattr(type(src), mname)(s, **kw), dtype=float) for s in samples], axis=0)
                         if len(orc2.trace) != len(orc.trace):
                             ctx.fail("nothing-else-consumes-randomness", c2, observed=len(orc.trace), expected=len(orc2.trace))
                         elif not _eq(rows, want):
